@@ -8,10 +8,11 @@ import SLE.Driver.UnifyD
 import SLE.Driver.PipelineD
 import SLE.Driver.TruthD
 import SLE.Driver.WatchdogD
+import SLE.Driver.LiftD
 /-! `sle_driver`: reads `family\tpayload\timpl_answer`, prints `model_answer\toracle_verdict`. -/
 open SLE.Driver
 
-def handleLine (line : String) : String :=
+def handleLine (tbl : Array (Nat × Nat)) (line : String) : String :=
   match splitTab line with
   | [fam, payload, impl] =>
     let (m, o) := match fam with
@@ -28,20 +29,24 @@ def handleLine (line : String) : String :=
       | "unify" => UnifyD.handle payload impl
       | "truth" => TruthD.handle payload impl
       | "watchdog" => WatchdogD.handle payload impl
+      | "hash" => LiftD.handleHash payload impl
+      | "lift" => LiftD.handleLift tbl payload impl
       | "pipeline" => PipelineD.handle payload impl
       | "orders" => PipelineD.handleOrders payload impl
       | _ => ("unknown-family", "ok")
     m ++ "\t" ++ o
   | _ => "bad-line\tok"
 
-partial def loop (h : IO.FS.Stream) (out : IO.FS.Stream) : IO Unit := do
+partial def loop (tbl : Array (Nat × Nat)) (h : IO.FS.Stream) (out : IO.FS.Stream) : IO Unit := do
   let line ← h.getLine
   if line.isEmpty then return ()
   let line := (line.dropEndWhile (fun c => c == '\n' || c == '\r')).toString
-  if !line.isEmpty then out.putStrLn (handleLine line)
-  loop h out
+  -- the 10,000-entry hash table is only built when a request needs it
+  let tbl := if tbl.isEmpty && (line.startsWith "lift\t" || line.startsWith "lifttc\t") then LiftD.slotTable else tbl
+  if !line.isEmpty then out.putStrLn (handleLine tbl line)
+  loop tbl h out
 
 def main : IO Unit := do
   let out ← IO.getStdout
-  loop (← IO.getStdin) out
+  loop #[] (← IO.getStdin) out
   out.flush
